@@ -334,7 +334,11 @@ func (fc *FnCtx) assign(st *State, lhs ast.Expr, v Val) {
 			fc.errorf("%s: unsupported indexed assignment %s", fc.pos(l), exprString(l))
 		}
 	case *ast.StarExpr:
-		// *p = v : value stored through a pointer to a basic type: abstracted
+		// *p = v with p a variable pointing to a scalar or string: the pointee is a cell of its own
+		if k, et, ok := fc.derefKey(l); ok {
+			fc.assignKey(st, k, et, v)
+			return
+		}
 		fc.abstracted = append(fc.abstracted, fmt.Sprintf("%s: store through pointer %s not modelled", fc.pos(l), exprString(l)))
 	default:
 		fc.errorf("%s: unsupported assignment target %T", fc.pos(lhs), lhs)
